@@ -1108,7 +1108,7 @@ func (g *psGen) sep(required bool, atTop bool, sb *strings.Builder) {
 	default:
 		if g.o.DSC && atTop {
 			sb.WriteString([]string{"\n", "\r\n", "\r"}[t.Choose(3)])
-			key := []string{"Title", "Creator", "CreationDate", "BoundingBox", "EndComments", "X"}[t.Choose(6)]
+			key := []string{"Title", "Creator", "CreationDate", "BoundingBox", "EndComments", "X", "EOF", "Trailer", "BeginResource", "EndResource", "Page"}[t.Choose(11)]
 			switch t.Choose(4) {
 			case 0:
 				sb.WriteString("%%" + key)
